@@ -33,6 +33,7 @@ Cls == CASE last.op = "fromLocal" -> Classify(last.z, last.w) \o "/" \o last.dis
          [] last.op = "bag" -> "bag/" \o last.oc.k \o "/" \o last.oo \o "/" \o Classify(last.z, last.w) \o CloseTag
          [] last.op = "fromDate" -> "fromDate/" \o last.tt \o "/" \o Classify(last.z, last.day * 86400) \o (IF CloseTransitions(last.z) THEN "/close-transitions" ELSE "")
          [] last.op = "relto" -> "relativeTo/" \o last.oc.k \o "/" \o Classify(last.z, last.w) \o CloseTag
+         [] last.op = "bagDate" -> "bagDate/" \o last.tf \o "/" \o last.dis \o "/" \o Classify(last.z, last.day * 86400) \o (IF CloseTransitions(last.z) THEN "/close-transitions" ELSE "")
          [] last.op = "interpret" -> last.oc.k \o "/" \o last.oo \o "/" \o Classify(last.z, last.w) \o CloseTag
 CaseOf ==
   CASE last.op = "fromLocal" -> [op |-> "Zoned.fromLocal", cls |-> Cls, args |-> [zone |-> last.z, w |-> last.w, dis |-> last.dis], out |-> last.out]
@@ -41,6 +42,7 @@ CaseOf ==
     [] last.op = "text" -> [op |-> "Zoned.text", cls |-> Cls, args |-> [zone |-> last.z, t |-> last.t, fd |-> last.fd, unit |-> last.unit, mode |-> last.mode, via |-> last.via], out |-> last.out]
     [] last.op = "bag" -> [op |-> "Zoned.fromPartial", cls |-> Cls, args |-> [zone |-> last.z, w |-> last.w, offk |-> last.oc.k, offmin |-> last.oc.o \div 60, dis |-> last.dis, offopt |-> last.oo], out |-> last.out]
     [] last.op = "fromDate" -> [op |-> "Zoned.fromDate", cls |-> Cls, args |-> [zone |-> last.z, day |-> last.day, tt |-> last.tt], out |-> last.out]
+    [] last.op = "bagDate" -> [op |-> "Zoned.fromBagDate", cls |-> Cls, args |-> [zone |-> last.z, day |-> last.day, tf |-> last.tf, dis |-> last.dis], out |-> last.out]
     [] last.op = "relto" -> [op |-> "Zoned.relTo", cls |-> Cls, args |-> [zone |-> last.z, w |-> last.w, offk |-> last.oc.k, off |-> last.oc.o], out |-> last.out]
     [] last.op = "interpret" -> [op |-> "Zoned.fromStr", cls |-> Cls, args |-> [zone |-> last.z, w |-> last.w, offk |-> last.oc.k, off |-> last.oc.o, dis |-> last.dis, offopt |-> last.oo], out |-> last.out]
 Emit == last.op = "none" \/ PrintT("CASE " \o ToJson(CaseOf))
